@@ -382,6 +382,21 @@ def inline_fn(fd, fns, recursive):
         blocks.extend(newblocks)
         n_inlined += 1
         i += 1
+    # `return` became a jump: skip over the empty jump-only blocks this leaves behind, so that a call whose result the helper
+    # returns directly (`check_cost(..)` as the helper's tail expression) is again immediately followed by the caller's `?`
+    def final(b_, seen_=()):
+        blk_ = blocks[b_]
+        if not blk_["stmts"] and blk_["term"]["k"] == "goto" and isinstance(blk_["term"].get("target"), int) and b_ not in seen_ \
+                and b_ >= len(fd["blocks"]):
+            return final(blk_["term"]["target"], seen_ + (b_,))
+        return b_
+    for blk_ in blocks:
+        t_ = blk_["term"]
+        for k_ in ("target", "otherwise"):
+            if isinstance(t_.get(k_), int):
+                t_[k_] = final(t_[k_])
+        if "targets" in t_:
+            t_["targets"] = [[v_, final(b_)] for v_, b_ in t_["targets"]]
     out["inlined_calls"] = n_inlined
     out["inlined_helpers"] = sorted({c for st in stack.values() for c in st[1:]})
     return out
